@@ -65,7 +65,7 @@ impl Property for C02 {
         "C02"
     }
     fn rule(&self) -> String {
-        "robots: catalogue / realistic / negative-length families, dof 6, all 64 sign patterns, offsets; joint vectors uniform in [-pi,pi]^6 (plus wide ones), admitted when the \
+        "robots: catalogue / realistic / negative-length families, dof 6, all 64 sign patterns, offsets; joint vectors uniform in [-pi,pi]^6 (plus wide ones, and ones with some joints exactly on a multiple of pi/2), admitted when the \
          model-computed margins hold: |sin q5|>0.01, |sin(q3+psi3)|>0.01, rho^2-b^2>(0.01 m)^2; excluded vectors are counted per margin. Every admitted case is non-trivial (all \
          closed-form branches are exercised); distinct = distinct serialized cases. Closure clauses are asserted for every returned answer that itself satisfies the margins."
             .into()
@@ -82,7 +82,7 @@ impl Property for C02 {
     fn strategy(&self, _tier: Tier) -> BoxedStrategy<Case> {
         (
             prop_oneof![3 => robot_catalogue(DofChoice::Six), 5 => robot_realistic(DofChoice::Six), 2 => robot_negative(DofChoice::Six), 2 => robot_zeroed(DofChoice::Six)],
-            prop_oneof![8 => joints_uniform(), 1 => joints_wide()],
+            prop_oneof![8 => joints_uniform(), 1 => joints_wide(), 2 => joints_some_lattice()],
             other_robot(DofChoice::Six, false),
             prop::bool::weighted(0.25),
         )
@@ -138,7 +138,12 @@ impl Property for C02 {
             if good.len() == sols.len() {
                 let p2 = to_na(&r.fk(s));
                 let sols2 = no_panic(|| k.inverse(&p2)).map_err(|m| viol!("inverse never panics", "{}", m))?;
-                ensure!(sols2.len() == sols.len(), "the answer set has the same size for the pose of each returned solution", "{} answers for q, {} answers for the pose of answer {:?}", sols.len(), sols2.len(), s);
+                // (a branch of the same pose that is exactly singular - e.g. J5 = pi when some joints sit on round values - may or may not be found,
+                // depending on rounding; the statement promises completeness away from singularities only. All answers for q are away from
+                // singularities here, so each of them must have its counterpart among the answers for the pose of s; that pose differs from
+                // the requested one by up to the solver's 1e-6 band, hence the counterpart is looked for within 1e-3)
+                let missing = sols.iter().filter(|u| !contains_mod2pi(&sols2, u, 1e-3)).count();
+                ensure!(missing == 0, "the answer set has the same size for the pose of each returned solution", "{} answers for q, {} of them without a counterpart among the {} answers for the pose of answer {:?}", sols.len(), missing, sols2.len(), s);
                 ensure!(contains_mod2pi(&sols2, s, 1e-6), "each returned solution is found again from its own pose", "{:?} not in {:?}", s, sols2);
             }
         }
